@@ -60,7 +60,7 @@ def scenario(rng, mix=None, adversarial=False):
         mix = gen.some_mixture(rng, p_builtin=0.6)
     model = rng.choice(["NRTL", "UNIQUAC"])
     mode = rng.choice(["vac", "temp", "temp", "temp", "press", "press", "press0"])
-    T = rng.uniform(273.0, 400.0)
+    T = gen.as_given(rng, rng.uniform(273.0, 400.0))
     sc = {"mix": mix, "model": model, "mode": mode, "T": T, "xw": gen.fraction(rng, ends=rng.random() < 0.3),
           "ctype": "weight" if rng.random() < 0.8 else "molar",
           "P1": gen.logu(rng, 1e-6, 1.0), "P2": gen.logu(rng, 1e-6, 1.0),
@@ -77,7 +77,7 @@ def scenario(rng, mix=None, adversarial=False):
         else:
             sc["Tperm"] = rng.uniform(120.0, T)
     elif mode == "press":
-        sc["pperm"] = rng.uniform(0.0, 100.0) if rng.random() < 0.7 else gen.logu(rng, 1e-3, 100.0)
+        sc["pperm"] = gen.as_given(rng, rng.uniform(0.0, 100.0) if rng.random() < 0.7 else gen.logu(rng, 1e-3, 100.0))
     elif mode == "press0":
         sc["pperm"] = 0.0
     return sc
@@ -292,11 +292,19 @@ def model_job(job):
     w = get_wrapper()
     out = []
     for j in range(n):
-        kind = rp.KINDS[j % 2] if rng.random() < 0.8 else "curve"
+        u = rng.random()
+        kind = rp.KINDS[j % 2] if u < 0.65 else ("curve" if u < 0.8 else rp.KINDS[2 + j % 2])      # all four kinds and the curve
         sc = rp.scenario(rng, kind=kind if kind != "curve" else "ideal_iso", mode="temp")
         sc["Tperm"] = sc["T0"] - gen.logu(rng, 0.05, 10.0)             # near equilibrium: cycles of the flux map live here
-        sc["N"] = rng.choice([1, 2, 3])
+        sc["N"] = rng.choice([1, 2, 3]) if not kind.startswith("nonideal") else rng.choice([3, 6, 12])
         sc["dt"] = gen.logu(rng, 1e-4, 1e-2)
+        if kind.endswith("noniso") and rng.random() < 0.5:
+            # self-cooling towards the permeate temperature: the driving force reverses in a LATER step
+            sc.pop("dt")
+            sc["removal"] = rng.uniform(0.002, 0.02)
+            sc["prog"] = None
+            sc.pop("want_prog", None)
+            rp.prepare(rng, sc)
         perv = pv.Pervaporation(membrane=sc["membrane"], mixture=sc["mix"])
         w.start(BUDGET * 2)
         outcome, exc = "return", None
